@@ -103,6 +103,16 @@ CHECKS = {
                  "calls every registered function on constant polynomials next to numpy on the raw arrays over axis / "
                  "keepdims grids, and the numeric division functions with non-constant divisors (FeatureNotSupported).",
          "note": BASE_NOTE + " Pattern-level: theorems cover the patterns, the per-function assignment is tied by the run. Known findings D9b, D21, D22 are pinned by the package's own tests/docstrings."},
+ "C05": {"ref": "5/C05", "technique": "Lean 4 proof of the division identity as a step invariant + executable long-division model with fuel + correspondence with an observed loop",
+         "text": "step_identity / steps_identity: dividend = q*divisor + r is preserved by every reduction step in any number "
+                 "of indeterminates, so it holds whenever the loop stops; stops_when_irreducible / step_none_iff: it stops only "
+                 "when the divisor element is zero or no term of the remainder is divisible by the leading term; zero_divisor; "
+                 "fuel_mono. Termination itself is `_partial`: the model runs with fuel and the run requires an answer within "
+                 "the fuel for every generated pair, while the implementation's loop is observed through a wrapper of "
+                 "get_division_candidate (repeated state / 400 iterations = non-termination). q and r are compared element by "
+                 "element with the Lean division; identity, exact multiples, constant divisors, degrees and the operator "
+                 "spellings are checked with exact dictionary arithmetic.",
+         "note": BASE_NOTE + " Termination is not proved (argument in DESIGN.md 5/C05); floating point only on dyadic coefficients where every quotient step is exact."},
 }
 CLAIMED = set(CHECKS)
 NOT_APPLICABLE = {f"C{i:02d}": "check under construction in this session (will be claimed once built)"
